@@ -109,6 +109,18 @@ def with_history(p):
     if "previously" in p or "_ws_object" in p or "steps" not in p or "cfg" not in p:
         return p
     h = int(fingerprint(p)[:8], 16)
+    # equivalent spellings of the configuration: 0 and None both disable a timeout; whole numbers of seconds as int
+    cfg = p["cfg"]
+    if isinstance(cfg, dict):
+        c2 = dict(cfg)
+        if c2.get("close_timeout", 1) is None and (h >> 8) % 3 == 0:
+            c2["close_timeout"] = 0
+        if c2.get("ping_timeout", 1) is None and (h >> 10) % 3 == 0:
+            c2["ping_timeout"] = 0
+        if c2 != cfg or (h >> 12) % 3 == 0:
+            p = dict(p, cfg=c2)
+            if (h >> 12) % 3 == 0:
+                p["int_seconds"] = True
     if h % 8 > 1 or (h % 8 == 1 and ("headers" in p or "previously_same" in p)):
         return p
     if _EARLIER is None:
